@@ -1,4 +1,4 @@
-//! C22 — the tokenizer and the archive iterator through libwild::verif_hooks.
+//! C22 — the tokenizer, the archive iterator and the version-script / export-list parsers through libwild::verif_hooks.
 fn unhex(s: &str) -> Vec<u8> {
     (0..s.len() / 2).map(|i| u8::from_str_radix(&s[2 * i..2 * i + 2], 16).unwrap()).collect()
 }
@@ -24,6 +24,9 @@ pub fn run_case(t: &[&str]) -> String {
             }
             format!("AR {s}")
         }
+        // `vs HEX` / `el HEX` -> the canonical rendering of the parsed version script / export list, lines joined by '|'
+        "vs" => libwild::verif_hooks::scripts::version_script(&unhex(t.get(1).copied().unwrap_or(""))).trim_end().replace('\n', "|"),
+        "el" => libwild::verif_hooks::scripts::export_list(&unhex(t.get(1).copied().unwrap_or(""))).trim_end().replace('\n', "|"),
         _ => "BAD".to_owned(),
     }
 }
